@@ -28,6 +28,10 @@ pub trait Verifier
 where
     Self: Sized + Seal,
 {
+    /// Whether a contract missing from the inputs aborts the instruction. When it does, the
+    /// check can (and does) run before the instruction touches storage.
+    const ABORTS_ON_MISSING_INPUT: bool;
+
     /// Handle an error after a contract is missing from the inputs
     #[allow(private_interfaces)] // PanicContext is an internal type, so this isn't callable by external code
     fn check_contract_in_inputs(
@@ -47,6 +51,8 @@ impl Verifier for Normal
 where
     Self: Sized,
 {
+    const ABORTS_ON_MISSING_INPUT: bool = true;
+
     #[allow(private_interfaces)]
     fn check_contract_in_inputs(
         &mut self,
@@ -79,6 +85,8 @@ impl Verifier for AttemptContinue
 where
     Self: Sized,
 {
+    const ABORTS_ON_MISSING_INPUT: bool = false;
+
     #[allow(private_interfaces)]
     fn check_contract_in_inputs(
         &mut self,
